@@ -234,6 +234,7 @@ structure Core (s : St) : Prop where
   resOk : ∀ g fu t, findFut s.futs g = some fu → fu.pc = .done (.ok t) →
     ∃ m ∈ s.delivered, m.id = some fu.id ∧ m.tag = t ∧ m.p2 = true
   queueNodup : s.rxQueue.Nodup
+  keysLe : ∀ k sl, findSlot s.slots k = some sl → k ≤ s.nextId
 
 /-- well-formedness of the receive lock; `h = some f`: future `f` is running with the lock in its
 hands, its program counter is stale and says nothing -/
@@ -254,12 +255,12 @@ def Inv (s : St) : Prop := Core s ∧ Lock s none
 def Hold (s : St) (f : Fid) : Prop := Core s ∧ Lock s (some f)
 
 theorem inv_init : Inv {} := by
-  refine ⟨⟨rfl, ?_, ?_, rfl, ?_, ?_, ?_, ?_, ?_, ?_, ?_, ?_, ?_⟩, ⟨?_, ?_, ?_, ?_, ?_, ?_⟩⟩ <;> simp [findFut, findSlot]
+  refine ⟨⟨rfl, ?_, ?_, rfl, ?_, ?_, ?_, ?_, ?_, ?_, ?_, ?_, ?_, ?_⟩, ⟨?_, ?_, ?_, ?_, ?_, ?_⟩⟩ <;> simp [findFut, findSlot]
 
 /-! ## proof automation for the invariant -/
 
 macro "inv_fields" : tactic =>
-  `(tactic| refine ⟨⟨?_, ?_, ?_, ?_, ?_, ?_, ?_, ?_, ?_, ?_, ?_, ?_, ?_⟩, ⟨?_, ?_, ?_, ?_, ?_, ?_⟩⟩)
+  `(tactic| refine ⟨⟨?_, ?_, ?_, ?_, ?_, ?_, ?_, ?_, ?_, ?_, ?_, ?_, ?_, ?_⟩, ⟨?_, ?_, ?_, ?_, ?_, ?_⟩⟩)
 
 macro "inv_norm" : tactic =>
   `(tactic| try simp only [map_fid_setPc, map_id_setPc, findFut_setPc_some, findSlot_setSlot_some, findSlot_removeSlot, findFut_append_some, findSlot_append_some, if_true, if_false,
@@ -280,14 +281,14 @@ set_option hygiene false in
 /-- take a `Hold s f` apart; the hold clause is specialised to `f` -/
 macro "hold_cases" h:ident : tactic =>
   `(tactic| (
-    obtain ⟨⟨c1, c2, c3, c4, c5, c6, c7, c8, c9, c10, c11, c12, c13⟩, ⟨h1, h2, h3, h4, h5, h6⟩⟩ := $h
+    obtain ⟨⟨c1, c2, c3, c4, c5, c6, c7, c8, c9, c10, c11, c12, c13, c14⟩, ⟨h1, h2, h3, h4, h5, h6⟩⟩ := $h
     have h6 := h6 _ rfl
     simp only [ne_eq, Option.some.injEq] at h1 h2 h3 h5))
 
 set_option hygiene false in
 macro "inv_cases" h:ident : tactic =>
   `(tactic| (
-    obtain ⟨⟨c1, c2, c3, c4, c5, c6, c7, c8, c9, c10, c11, c12, c13⟩, ⟨h1, h2, h3, h4, h5, h6⟩⟩ := $h
+    obtain ⟨⟨c1, c2, c3, c4, c5, c6, c7, c8, c9, c10, c11, c12, c13, c14⟩, ⟨h1, h2, h3, h4, h5, h6⟩⟩ := $h
     clear h6
     simp only [ne_eq, reduceCtorEq, not_false_eq_true, true_and, forall_const] at h1 h2 h3 h5))
 
